@@ -143,6 +143,15 @@ class PerMember(Base):
 PerMember._private._pyroExposed = True       # even a (wrongly) marked private member must stay unreachable
 
 
+def _all_underscores(self, *a, **k):
+    log("____")
+    return 14
+
+
+_all_underscores._pyroExposed = True
+setattr(PerMember, "____", _all_underscores)    # a name of underscores only has a leading underscore: private
+
+
 @expose
 class WholeClass(Base):
     """the class itself is exposed: its own members, not the inherited unexposed ones"""
@@ -174,6 +183,19 @@ class WholeClass(Base):
     @oneway
     def wow(self, *a, **k):
         log("wow")
+
+    def ____(self, *a, **k):              # underscores only: private, class-level @expose must skip it
+        log("W.____")
+        return 24
+
+    def __(self, *a, **k):
+        log("W.__")
+        return 25
+
+    @property
+    def ___(self):
+        log("W.___")
+        return 26
 
 
 class NotExposed(Base):
@@ -323,10 +345,44 @@ def _reset():
     del LOG[:]
 
 
+# the private-name rule of the statement, written independently of the code: a leading underscore makes a name private,
+# except proper dunder names (two underscores, a non-empty core, two underscores); the reserved dunder names are
+# private as well.  The reserved list is the documented one at the pinned commit.
+RESERVED = ["__init__", "__init_subclass__", "__class__", "__module__", "__weakref__", "__call__", "__new__", "__del__",
+            "__repr__", "__str__", "__format__", "__nonzero__", "__bool__", "__coerce__", "__cmp__", "__eq__", "__ne__",
+            "__hash__", "__ge__", "__gt__", "__le__", "__lt__", "__dir__", "__enter__", "__exit__", "__copy__",
+            "__deepcopy__", "__sizeof__", "__getattr__", "__setattr__", "__hasattr__", "__getattribute__", "__delattr__",
+            "__instancecheck__", "__subclasscheck__", "__getinitargs__", "__getnewargs__", "__getstate__", "__setstate__",
+            "__reduce__", "__reduce_ex__", "__subclasshook__"]
+
+
+def ref_private(name):
+    if name in RESERVED:
+        return True
+    if len(name) == 0 or name[0] != "_":
+        return False
+    if len(name) >= 5 and name.startswith("__") and name.endswith("__"):
+        return False          # a proper dunder name: non-empty core between the double underscores
+    return True
+
+
+def h_predicate(S, B):
+    name = S.str("name", B["L"])
+    got = bool(server.is_private_attribute(name))
+    want = bool(ref_private(name))
+    S.check("private-name-predicate-matches-the-rule", got == want)
+    S.cover("private" if got else "public")
+    S.observe("private", got)
+
+
 INTERPRET_MODULES = ["harness.rig"]
 STUBS = rig.STUBS
 
 SPECS = [
+    Spec("predicate", h_predicate, {"quick": {"L": 18}, "thorough": {"L": 24}},
+         covers=["private", "public", "check:private-name-predicate-matches-the-rule"],
+         native_patch=env.native_env, reset=_reset,
+         desc="is_private_attribute on a symbolic name (any code points, length 0..L) against the rule of the statement: leading underscore unless a proper dunder name (non-empty core), plus the reserved dunder list"),
     Spec("request", h_request,
          {"quick": {"L": 12, "SHAPES": ["PerMember", "WholeClass", "NotExposed"]},
           "thorough": {"L": 20, "SHAPES": ["PerMember", "WholeClass", "NotExposed"]}},
